@@ -50,6 +50,7 @@ type c14Input struct {
 	Per      int         `json:"per,omitempty"` // calls per client between two quiescent points (0 = all at once)
 	Big      int         `json:"big,omitempty"` // bytes of an untouched filler secret: slow saves put the mutex into FIFO hand-off
 	Repeat   int         `json:"repeat,omitempty"`
+	SlowLog  int         `json:"slow_log,omitempty"` // microseconds the audit sink takes per record (widens the windows around it)
 	Recorded *c14Obs     `json:"recorded,omitempty"` // a history recorded earlier: re-decided verbatim on replay
 }
 
@@ -253,6 +254,7 @@ func runC14Program(work string, idx int, in c14Input) ([]c14Obs, error) {
 	defer env.close()
 	env.sink.mu.Lock()
 	env.sink.quiet = true // the order of audit records is C06's; here the writer is only exercised
+	env.sink.delay = time.Duration(in.SlowLog) * time.Microsecond
 	env.sink.mu.Unlock()
 	var dbt = &c14DB{env: env, callers: in.Callers}
 	var ht *c14HTTP
@@ -397,7 +399,7 @@ func c14Overlap(obs *c14Obs) (overlaps int, mutOverlap bool) {
 
 func c14Record(in c14Input, obs *c14Obs, kind string) Record {
 	n, mut := c14Overlap(obs)
-	tags := map[string]bool{"mode:" + in.Mode: true, fmt.Sprintf("slow-saves:%v", in.Big > 0): true, "shape:" + in.Shape: true, fmt.Sprintf("threads:%d", len(in.Threads)): true,
+	tags := map[string]bool{"mode:" + in.Mode: true, fmt.Sprintf("slow-saves:%v", in.Big > 0): true, fmt.Sprintf("slow-log:%v", in.SlowLog > 0): true, "shape:" + in.Shape: true, fmt.Sprintf("threads:%d", len(in.Threads)): true,
 		fmt.Sprintf("procs:%d", in.Procs): true}
 	switch {
 	case n == 0:
@@ -430,6 +432,9 @@ func genC14(seed uint64, i int) c14Input {
 	in := c14Input{Mode: "db", Procs: []int{1, 2, 4, 4, 8, 16}[r.IntN(6)]}
 	if i%3 == 2 {
 		in.Mode = "http"
+	}
+	if i%4 == 1 { // a slow audit device: calls overlap around their audit records
+		in.SlowLog = []int{50, 200, 800}[r.IntN(3)]
 	}
 	// caller 0 may do everything; caller 1 reads everything but may only put/activate "b"
 	in.Callers = []DBCaller{{ID: 1, Rules: superRules()},
@@ -476,7 +481,7 @@ func genC14(seed uint64, i int) c14Input {
 		return c14Call{DBStep: DBStep{Caller: caller(), Kind: kind, Name: name(), Ver: uint32(1 + r.IntN(3)), Val: 1 + r.IntN(4)}, Pre: pre()}
 	}
 	weights := map[string]int{"put": 30, "activate": 14, "delver": 9, "del": 6, "get": 14, "getver": 8, "getcond": 4, "info": 8, "list": 7}
-	shapes := []string{"random", "random", "random", "puts", "activate-get", "delete-put", "delver-info", "delver-activate", "list-two-names"}
+	shapes := []string{"random", "random", "random", "puts", "activate-get", "delete-put", "delver-info", "delver-activate", "list-two-names", "rotate", "activate-get", "poll-activate"}
 	in.Shape = shapes[r.IntN(len(shapes))]
 	if r.IntN(16) == 0 {
 		in.Big = 60000 + 40000*r.IntN(3)
@@ -487,6 +492,40 @@ func genC14(seed uint64, i int) c14Input {
 		if nth < 3 {
 			nth, per = 3, 3
 		}
+	}
+	if in.Shape == "poll-activate" {
+		// pollers (conditional gets carrying either version) and plain readers against an operator flipping
+		// the active version, through the HTTP handlers: whatever a handler remembers between requests must
+		// not outlive an activate that has returned
+		in.Mode = "http"
+		in.Setup = []DBStep{{Kind: "put", Name: names[0], Val: 1}, {Kind: "put", Name: names[0], Val: 2}}
+		pre = func() int { return 0 }
+		if nth < 3 {
+			nth = 3
+		}
+		per = 3
+		if in.SlowLog == 0 {
+			in.SlowLog = []int{100, 300, 800}[r.IntN(3)]
+		}
+	}
+	if in.Shape == "rotate" {
+		// key rotation racing readers: the active version moves up and the old one is deleted at once;
+		// a get must never fall between the two (it names no version, so it can never be "not found")
+		in.Setup = nil
+		for v := 1; v <= 9; v++ {
+			in.Setup = append(in.Setup, DBStep{Kind: "put", Name: names[0], Val: v})
+		}
+		pre = func() int { return 0 }
+		if nth < 3 {
+			nth = 3
+		}
+		per = 4
+		if r.IntN(2) == 0 && in.SlowLog == 0 {
+			in.SlowLog = []int{100, 400}[r.IntN(2)]
+		}
+	}
+	if in.Shape == "activate-get" && r.IntN(2) == 0 && in.SlowLog == 0 {
+		in.SlowLog = []int{100, 400}[r.IntN(2)]
 	}
 	if in.Shape == "list-two-names" || in.Shape == "delver-activate" {
 		// contention shapes: a fixed prefix, no pauses
@@ -500,6 +539,12 @@ func genC14(seed uint64, i int) c14Input {
 	// `per` calls, so a long run is decided as a sequence of small histories
 	segs := 1 + r.IntN(2)
 	if in.Shape == "activate-get" || in.Shape == "list-two-names" || in.Shape == "delver-activate" {
+		segs = 4
+	}
+	if in.Shape == "rotate" {
+		segs = 2
+	}
+	if in.Shape == "poll-activate" {
 		segs = 4
 	}
 	if os.Getenv("VERIF_TIER_INTERNAL") == "thorough" {
@@ -524,6 +569,34 @@ func genC14(seed uint64, i int) c14Input {
 					c.Name, c.Ver, c.Caller = names[0], uint32(1+(k+t)%2), 0
 				} else {
 					c = mk([]string{"get", "get", "info", "list", "getver", "getcond"}[r.IntN(6)])
+				}
+			case "poll-activate":
+				switch {
+				case t == 0:
+					c = mk("activate")
+					c.Name, c.Ver, c.Caller = names[0], uint32(1+(k+1)%2), 0
+				case t%2 == 1:
+					c = mk("get")
+					c.Name, c.Caller = names[0], 0
+				default:
+					c = mk("getcond")
+					c.Name, c.Ver, c.Caller = names[0], uint32(1+r.IntN(2)), 0
+				}
+			case "rotate":
+				if t == 0 { // activate k+1, delete k, activate k+2, delete k+1, ...
+					step := k/2 + 1
+					if k%2 == 0 {
+						c = mk("activate")
+						c.Ver = uint32(step + 1)
+					} else {
+						c = mk("delver")
+						c.Ver = uint32(step)
+					}
+					c.Name, c.Caller = names[0], 0
+				} else {
+					c = mk([]string{"get", "get", "get", "getcond", "info"}[r.IntN(5)])
+					c.Name = names[0]
+					c.Ver = uint32(1 + r.IntN(6))
 				}
 			case "delete-put": // re-creation restarts at version 1
 				if t == 0 {
